@@ -90,6 +90,12 @@ example : (sv1Decode [0xff, 0xd8, 0xff, 0xc3, 0x00, 0x0b, 0x08, 0x00, 0x01, 0x00
     `data[2+component*2]` / `dcTableSelectors[component]` indices, first table lookup) -/
 theorem jll_decode_total (bs : Bytes) (s : Site) : (jllDecode bs).2 ≠ .panic s := jllDecode_total bs s
 
+/-- regression anchor (C09 class c09-second-frame-header-resize, commit 72b8b5a): the second frame header of a
+    jpeg/lossless stream (the first declares 1x1, the copy 30000x30000) is an error -/
+example : (jllDecode [0xff, 0xd8, 0xff, 0xc3, 0x00, 0x0b, 0x08, 0x00, 0x01, 0x00, 0x01, 0x01, 0x01, 0x11, 0x00,
+    0xff, 0xc3, 0x00, 0x0b, 0x08, 0x75, 0x30, 0x75, 0x30, 0x01, 0x01, 0x11, 0x00]).2 = .err := by
+  rw [jllDecode_eval 8 rfl rfl] <;> rfl
+
 /-- (6) FULL: `baseline.Decode` (marker loop, parseSOF incl. the DivCeil divisors, parseDQT,
     parseDHT, parseDRI, parseSOS, start of decodeScan and the first decodeBlock table lookup) -/
 theorem baseline_decode_total (bs : Bytes) (s : Site) : (blDecode bs).2 ≠ .panic s := blDecode_total bs s
@@ -117,6 +123,15 @@ theorem jlsnear_header_total (bs : Bytes) (s : Site) : (nheader bs).2 ≠ .panic
 /-- regression anchor: SOF55 with precision byte 0x40 (was 256/(MAXVAL+1) with MAXVAL = −1) -/
 example : (header [0xff, 0xd8, 0xff, 0xf7, 0x00, 0x0b, 0x40, 0x00, 0x01, 0x00, 0x01, 0x01, 0x01, 0x11, 0x00]).2 = .err := by
   rw [header_eval 8 rfl rfl] <;> rfl
+
+/-- regression anchor (class c09-second-frame-header-resize, commit 72b8b5a): the outside probe's header — SOF55 8x8, then
+    a copy declaring 30000x30000 — is an error in both JPEG-LS decoders -/
+example : (header [0xff, 0xd8, 0xff, 0xf7, 0x00, 0x0b, 0x08, 0x00, 0x08, 0x00, 0x08, 0x01, 0x01, 0x11, 0x00,
+    0xff, 0xf7, 0x00, 0x0b, 0x08, 0x75, 0x30, 0x75, 0x30, 0x01, 0x01, 0x11, 0x00]).2 = .err := by
+  rw [header_eval 8 rfl rfl] <;> rfl
+example : (nheader [0xff, 0xd8, 0xff, 0xf7, 0x00, 0x0b, 0x08, 0x00, 0x08, 0x00, 0x08, 0x01, 0x01, 0x11, 0x00,
+    0xff, 0xf7, 0x00, 0x0b, 0x08, 0x75, 0x30, 0x75, 0x30, 0x01, 0x01, 0x11, 0x00]).2 = .err := by
+  rw [nheader_eval 8 rfl rfl] <;> rfl
 
 /-- the division guard is not vacuous: without the precision check MAXVAL would be −1 -/
 example : thresholdsDivOk (maxValOf 64) = false := by decide
